@@ -1,5 +1,5 @@
 (* C15 — The stream pool only hands out clean live streams and never leaks one.
-   Only the property theorems (closed by `exact`), their axiom reports and non-vacuity examples.
+   Only the property theorems (closed by `exact`), their axiom reports and examples.
    Model: Model/Pool.v; proofs: Proofs/PoolProofs.v.
 
    Quantification: every capacity c >= 0 (MaxStreamNum, a uint32), every history h of the atomic labels
@@ -8,17 +8,25 @@
    timer, session loss, the session's cleanup closure, the manager's pool.close() and the rebuild —
    in every order.  Atomic labels suffice: push/pop run under the pool mutex, a popped stream is owned
    exclusively, the flags read afterwards are monotone atomics (see the header of Model/Pool.v).
-   [init f c]: f = false is /repo today, f = true is the model with "close what is discarded". *)
+
+   [init f g c]: the two switches of the model.  Which variant /repo is, is translated from
+   session_manager.go / stream.go on every run into Gen/SwitchC15.v:
+     sw_close_discarded          (f) getOrOpenStream closes a popped stream it does not hand out;
+     sw_reset_rejects_unflushed  (g) Stream.reset() fails on written-but-unflushed bytes.
+   The headline theorems below are stated for the current tree (both switches as generated); if a
+   repair disappears from the source the switch flips and this file no longer compiles. *)
 From Coq Require Import List ZArith Lia Bool Arith.
-From Shm Require Import Gen.Consts Model.Pool Proofs.PoolProofs.
+From Shm Require Import Gen.Consts Gen.SwitchC15 Model.Pool Proofs.PoolProofs.
 Import ListNotations.
 Open Scope Z_scope.
 
+Definition current (c : Z) : st := init sw_close_discarded sw_reset_rejects_unflushed c.
+
 (* a stream is never in the hands of two callers, never twice in a caller's hands, never both pooled
    and held; tail - head <= capacity; distinct ring positions (index mod capacity, wrap-around
-   included, capacity 1 and 0 included) hold distinct streams *)
-Theorem C15_ring : forall f c h, 0 <= c ->
-  let s := run (init f c) h in
+   included, capacity 1 and 0 included) hold distinct streams — for every variant *)
+Theorem C15_ring : forall f g c h, 0 <= c ->
+  let s := run (init f g c) h in
   (forall c1 c2 x, holder s c1 x -> holder s c2 x -> c1 = c2) /\
   NoDup (map snd (held s)) /\
   (forall c x, holder s c x -> ~ pooled s x) /\
@@ -29,8 +37,8 @@ Proof. exact ring_thm. Qed.
 Print Assumptions C15_ring.
 
 (* GetActiveStreamCount counts exactly the streams of the session that have not been closed *)
-Theorem C15_table : forall f c h, 0 <= c ->
-  let s := run (init f c) h in
+Theorem C15_table : forall f g c h, 0 <= c ->
+  let s := run (init f g c) h in
   forall k, NoDup (table (sessions s k)) /\
             forall x, In x (table (sessions s k)) <->
                       ((x < nstreams s)%nat /\ ssess (streams s x) = k /\ sst (streams s x) <> Closed).
@@ -39,87 +47,104 @@ Print Assumptions C15_table.
 
 (* whatever callers and peer did before: a stream returned by Get is open, its session is not shut
    down, it is not in fallback state, the caller is its only holder and it is not in the ring *)
-Theorem C15_clean_live : forall f c h cl s' x, 0 <= c ->
-  step (run (init f c) h) (Get cl) = (s', RGot x) ->
+Theorem C15_clean_live : forall f g c h cl s' x, 0 <= c ->
+  step (run (init f g c) h) (Get cl) = (s', RGot x) ->
   sst (streams s' x) = Opened /\ shut (sessions s' (ssess (streams s' x))) = false /\
   infb (streams s' x) = false /\ holder s' cl x /\ (forall c2, holder s' c2 x -> c2 = cl) /\ ~ pooled s' x.
 Proof. exact clean_live_thm. Qed.
 Print Assumptions C15_clean_live.
 
-(* FULL statement "carries no bytes from an earlier use": recvBuf.Len = 0, no pending data,
-   sendBuf.Len = 0 (and no fallback flag) for every stream Get returns — FALSE of today's code *)
+(* "carries no bytes from an earlier use", buffers — current tree, no hypothesis: the receive buffer
+   and the send buffer of every stream Get returns are empty, whatever the previous holders wrote, read,
+   flushed or left behind *)
+Theorem C15_clean_buffers : forall c h cl s' x, 0 <= c ->
+  step (run (current c) h) (Get cl) = (s', RGot x) ->
+  sumz (rbuf (streams s' x)) = 0 /\ sumz (sbuf (streams s' x)) = 0 /\ infb (streams s' x) = false.
+Proof. exact (clean_bytes_current_thm sw_close_discarded). Qed.
+Print Assumptions C15_clean_buffers.
+
+(* "never leaks one" — current tree, no hypothesis: in every live session the stream table is exactly
+   the not-closed streams that callers hold or the ring keeps (active = held + pooled), including after
+   the pool discarded streams that were closed by the peer or whose session was lost *)
+Theorem C15_no_leak : forall c h, 0 <= c ->
+  let s := run (current c) h in
+  forall k x, shut (sessions s k) = false ->
+    (In x (table (sessions s k)) <->
+     ((pooled s x \/ exists cl, holder s cl x) /\ ssess (streams s x) = k /\ sst (streams s x) <> Closed)).
+Proof. exact (fixed_no_leak_thm sw_reset_rejects_unflushed). Qed.
+Print Assumptions C15_no_leak.
+
+(* FULL cleanliness (also: nothing pending) is FALSE of every variant, the current tree included: a
+   response that arrives after PutBack waits in pendingData of the pooled stream and is handed to the
+   next holder (known finding C15:late-data-on-pooled-stream-reaches-next-user; the protocol has no
+   stream generation that would let the receiver tell late data from new data) *)
 Definition C15_clean_full : Prop :=
-  forall f c h cl s' x, 0 <= c -> step (run (init f c) h) (Get cl) = (s', RGot x) ->
+  forall f g c h cl s' x, 0 <= c -> step (run (init f g c) h) (Get cl) = (s', RGot x) ->
   sumz (rbuf (streams s' x)) = 0 /\ pend (streams s' x) = [] /\ sumz (sbuf (streams s' x)) = 0 /\ infb (streams s' x) = false.
 
 Theorem C15_clean_refuted : ~ C15_clean_full.
 Proof. exact clean_refuted. Qed.
 Print Assumptions C15_clean_refuted.
 
-(* it holds when (a) callers give a stream back only with an empty send buffer and (b) the peer sends
-   nothing to a stream while it is pooled — reset() checks neither *)
-Theorem C15_partial_clean : forall f c h cl s' x, 0 <= c ->
+(* the pending clause holds in every history in which the peer sends nothing to a stream while it is
+   pooled *)
+Theorem C15_partial_no_pending : forall f g c h cl s' x, 0 <= c ->
+  guarded (fun s l => match l with PeerData x _ _ => ~ pooled s x | _ => True end) (init f g c) h ->
+  step (run (init f g c) h) (Get cl) = (s', RGot x) -> pend (streams s' x) = [].
+Proof. exact partial_pend_thm. Qed.
+Print Assumptions C15_partial_no_pending.
+
+(* the two repaired clauses for EITHER variant of the code, with the hypothesis the old code needs *)
+Theorem C15_clean_buffers_either_variant : forall f g c h cl s' x, 0 <= c ->
   guarded (fun s l => match l with
-                      | Put c x => holds c x s = true -> sumz (sbuf (streams s x)) = 0
-                      | PeerData x _ _ => ~ pooled s x
+                      | Put c x => fy s = true \/ (holds c x s = true -> sumz (sbuf (streams s x)) = 0)
                       | _ => True
-                      end) (init f c) h ->
-  step (run (init f c) h) (Get cl) = (s', RGot x) ->
-  sumz (rbuf (streams s' x)) = 0 /\ pend (streams s' x) = [] /\ sumz (sbuf (streams s' x)) = 0 /\ infb (streams s' x) = false.
-Proof. exact partial_clean_thm. Qed.
-Print Assumptions C15_partial_clean.
+                      end) (init f g c) h ->
+  step (run (init f g c) h) (Get cl) = (s', RGot x) ->
+  sumz (rbuf (streams s' x)) = 0 /\ sumz (sbuf (streams s' x)) = 0 /\ infb (streams s' x) = false.
+Proof. exact clean_bytes_thm. Qed.
+Print Assumptions C15_clean_buffers_either_variant.
 
-(* FULL statement "never leaks one" on the model of today's code: in every live session the stream
-   table is exactly the not-closed streams that callers hold or the ring keeps (active = held + pooled) *)
-Definition C15_no_leak_full : Prop :=
-  forall c h, 0 <= c ->
-  let s := run (init false c) h in
-  forall k x, shut (sessions s k) = false ->
-    (In x (table (sessions s k)) <->
-     ((pooled s x \/ exists cl, holder s cl x) /\ ssess (streams s x) = k /\ sst (streams s x) <> Closed)).
-
-Theorem C15_refuted : ~ C15_no_leak_full.
-Proof. exact no_leak_refuted. Qed.
-Print Assumptions C15_refuted.
-
-(* it holds for every history in which the peer closes no stream while it is pooled — and the
-   hypothesis is void as soon as getOrOpenStream closes what it discards (fx = true) *)
-Theorem C15_partial_no_leak : forall f c h, 0 <= c ->
-  guarded (fun s l => fx s = true \/ match l with PeerClose x => ~ pooled s x | _ => True end) (init f c) h ->
-  let s := run (init f c) h in
+Theorem C15_no_leak_either_variant : forall f g c h, 0 <= c ->
+  guarded (fun s l => fx s = true \/ match l with PeerClose x => ~ pooled s x | _ => True end) (init f g c) h ->
+  let s := run (init f g c) h in
   forall k x, shut (sessions s k) = false ->
     (In x (table (sessions s k)) <->
      ((pooled s x \/ exists cl, holder s cl x) /\ ssess (streams s x) = k /\ sst (streams s x) <> Closed)).
 Proof. exact partial_no_leak_thm. Qed.
-Print Assumptions C15_partial_no_leak.
-
-Theorem C15_no_leak_once_fixed : forall c h, 0 <= c ->
-  let s := run (init true c) h in
-  forall k x, shut (sessions s k) = false ->
-    (In x (table (sessions s k)) <->
-     ((pooled s x \/ exists cl, holder s cl x) /\ ssess (streams s x) = k /\ sst (streams s x) <> Closed)).
-Proof. exact fixed_no_leak_thm. Qed.
-Print Assumptions C15_no_leak_once_fixed.
+Print Assumptions C15_no_leak_either_variant.
 
 (* non-vacuity: capacity 1, three callers, ring wrap-around and overflow, a dirty put-back, a
-   fallback stream, session loss and rebuild; the guards of both partial theorems hold of it *)
+   fallback stream, session loss and rebuild *)
 Example C15_example_run :
   let h := [Get 0; Get 1; Put 0 0; Put 1 1; Get 2; Put 2 0; Get 0; Write 0 0 7 false; Flush 0 0;
             PeerData 0 9 false; Put 0 0; Get 1; Write 1 2 3 true; Flush 1 2; Heal; Put 1 2;
             Get 0; SessLoss; SessCleanup 0; BgPop; Rebuild; Put 0 3; Get 2]%nat in
-  let s := run (init false 1) h in
+  let s := run (current 1) h in
   (head s, tail s, cur s, nstreams s, held s) = (2, 2, 1%nat, 5%nat, [(2, 4)]%nat) /\
   map (fun x => sstate_code (sst (streams s x))) (seq 0 5) = [1; 1; 1; 1; 0] /\
   table (sessions s 1) = [4%nat].
 Proof. vm_compute. repeat split. Qed.
 
-(* the second way in which C15_clean_full fails: a response that arrives after PutBack *)
-Example C15_late_data_witness :
-  let r := step (run (init false 2) witness_late) (Get 1) in
-  snd r = RGot 0 /\ pend (streams (fst r) 0) = [(16, false)].
-Proof. exact late_data_witness. Qed.
+(* regression, OLD code only (before the two repairs): unflushed bytes of the previous holder surfaced
+   in the receive buffer of the next one; now the stream is closed at PutBack and a fresh one handed out *)
+Example C15_old_code_unflushed_bytes :
+  let old := step (run (init false false 2) witness_unflushed) (Get 1) in
+  let new := step (run (init true true 2) witness_unflushed) (Get 1) in
+  (snd old = RGot 0 /\ sumz (rbuf (streams (fst old) 0)) = 5) /\
+  (snd new = RGot 1 /\ sst (streams (fst new) 0) = Closed /\ table (sessions (fst new) 0) = [1%nat]).
+Proof. exact unflushed_witness_old_and_new. Qed.
 
-(* the leak witness does not leak on the repaired model *)
-Example C15_leak_witness_fixed :
-  let s := run (init true 2) witness_leak in table (sessions s 0) = [1%nat] /\ held s = [(0, 1)]%nat.
+(* regression, OLD code only: a stream closed by the peer while pooled was dropped without Close and
+   stayed in the session table; now it is closed *)
+Example C15_old_code_leaked :
+  ~ (forall c h, 0 <= c ->
+     let s := run (init false true c) h in
+     forall k x, shut (sessions s k) = false ->
+       (In x (table (sessions s k)) <->
+        ((pooled s x \/ exists cl, holder s cl x) /\ ssess (streams s x) = k /\ sst (streams s x) <> Closed))).
+Proof. exact leak_old_code. Qed.
+
+Example C15_leak_witness_now :
+  let s := run (init true true 2) witness_leak in table (sessions s 0) = [1%nat] /\ held s = [(0, 1)]%nat.
 Proof. exact leak_witness_fixed. Qed.
